@@ -1,6 +1,7 @@
 (* C34 — editor-support positions identify references and objects exactly. *)
 From Coq Require Import Sorting.Sorted Sorting.Permutation.
-From TxV Require Import Core.Base Model.EdPosDefs Gen.SrcEdPos Model.EdPos Proofs.EdPosProofs.
+From TxV Require Import Model.PegSyntax Model.Peg Model.Build.
+From TxV Require Import Core.Base Model.EdPosDefs Gen.SrcEdPos Model.EdPos Proofs.EdPosProofs Model.EdPosBuild Proofs.EdPosBuildProofs.
 
 (* The facts tools/translate/edpos_tr.py reads off the current textx/model.py (Gen/SrcEdPos.v):
    RefRulePosition takes the span of the reference node and the span of the resolved object,
@@ -16,27 +17,81 @@ Proof. exact source_facts. Qed.
 Print Assumptions C34_source_facts.
 
 (* For EVERY scope provider (any function of the reference and of the history of provider
-   calls: every postponement schedule), every number of models and every list of references
-   per model: if the load succeeds, the _pos_crossref_list of each model
+   calls: every postponement schedule), every builtins table (bi x = the name of x is in
+   metamodel.builtins with a matching class), every number of models under construction and
+   every list of references per model: if the load succeeds, the _pos_crossref_list of EACH
+   model
    - is sorted by ref_pos_start,
-   - consists of exactly one entry per reference of that model (xts pairs the model's
-     references, in order, with targets; the list is a permutation of their entries),
+   - has exactly one entry for each reference the provider resolved to a model object (xts) and
+     none for the references resolved through the builtins fallback (bs); xts and bs together
+     are all the references of the model,
    - each entry (mk_entry) carries the start and end of the reference text and the file,
      start and end of a target the provider answered for that very reference. *)
-Theorem C34_refs : forall (ans : provider) models outs,
-  load ans models = Ok outs ->
+Theorem C34_refs : forall (ans : provider) (bi : cref -> bool) models outs,
+  load ans bi models = Ok outs ->
+  Forall2 (fun rs es =>
+             StronglySorted (fun a b => (e_start a <= e_start b)%N) es /\
+             exists xts bs,
+               Permutation rs (map fst xts ++ bs) /\
+               Forall (fun xt => exists h, ans (fst xt) h = Resolved (snd xt)) xts /\
+               Forall (fun b => bi b = true /\ exists h, ans b h = NotFound) bs /\
+               Permutation es (map mk_entry xts)) models outs.
+Proof. exact load_listed. Qed.
+Print Assumptions C34_refs.
+
+(* Without builtins (the default) every reference of the model has its entry. *)
+Theorem C34_refs_no_builtins : forall (ans : provider) (bi : cref -> bool) models outs,
+  (forall x, bi x = false) ->
+  load ans bi models = Ok outs ->
   Forall2 (fun rs es =>
              StronglySorted (fun a b => (e_start a <= e_start b)%N) es /\
              exists xts, map fst xts = rs /\
                          Forall (fun xt => exists h, ans (fst xt) h = Resolved (snd xt)) xts /\
                          Permutation es (map mk_entry xts)) models outs.
-Proof. exact load_listed. Qed.
-Print Assumptions C34_refs.
+Proof. exact load_listed_no_builtins. Qed.
+Print Assumptions C34_refs_no_builtins.
+
+(* Multi-model loads: at the end of the main load the list of EVERY model taking part in it
+   (main and imported ones) is sorted, not only the main model's. *)
+Theorem C34_all_models_sorted : forall (ans : provider) (bi : cref -> bool) models outs,
+  load ans bi models = Ok outs ->
+  length outs = length models /\
+  Forall (StronglySorted (fun a b => (e_start a <= e_start b)%N)) outs.
+Proof. exact load_all_sorted. Qed.
+Print Assumptions C34_all_models_sorted.
+
+(* Models that were completely loaded earlier (global repository) are not under construction:
+   they keep their list unchanged, the models loaded now satisfy C34_refs, and if the old lists
+   were sorted every model reachable from the main model has a sorted list afterwards. *)
+Theorem C34_repo : forall (ans : provider) (bi : cref -> bool) gms outs,
+  load_repo ans bi gms = Ok outs ->
+  Forall2 (fun g es => match g with
+                       | Done es0 => es = es0
+                       | Fresh rs =>
+                           StronglySorted (fun a b => (e_start a <= e_start b)%N) es /\
+                           exists xts bs,
+                             Permutation rs (map fst xts ++ bs) /\
+                             Forall (fun xt => exists h, ans (fst xt) h = Resolved (snd xt)) xts /\
+                             Forall (fun b => bi b = true /\ exists h, ans b h = NotFound) bs /\
+                             Permutation es (map mk_entry xts)
+                       end) gms outs.
+Proof. exact load_repo_listed. Qed.
+Print Assumptions C34_repo.
+
+Theorem C34_repo_all_sorted : forall (ans : provider) (bi : cref -> bool) gms outs,
+  Forall (fun g => match g with
+                   | Done es => StronglySorted (fun a b => (e_start a <= e_start b)%N) es
+                   | Fresh _ => True end) gms ->
+  load_repo ans bi gms = Ok outs ->
+  Forall (StronglySorted (fun a b => (e_start a <= e_start b)%N)) outs.
+Proof. exact load_repo_all_sorted. Qed.
+Print Assumptions C34_repo_all_sorted.
 
 (* The fuel of [load] (number of references + 1) always suffices: the hypothesis [= Ok] of the
    theorems excludes only failed loads (unknown object / unresolvable), never a fuel artefact. *)
-Theorem C34_load_terminates : forall (ans : provider) models, load ans models <> OutOfFuel.
-Proof. exact load_terminates. Qed.
+Theorem C34_load_terminates : forall (ans : provider) (bi : cref -> bool) gms,
+  load_repo ans bi gms <> OutOfFuel /\ forall models, load ans bi models <> OutOfFuel.
+Proof. exact terminates_both. Qed.
 Print Assumptions C34_load_terminates.
 
 (* What an entry made for reference x and target t contains. *)
@@ -48,14 +103,16 @@ Proof. intros x t. repeat split; reflexivity. Qed.
 Print Assumptions C34_entry_exact.
 
 (* When the reference texts of each model are at increasing positions (what the parser
-   delivers, see C34_tree_refs_increasing), the list is exactly the list of the model's
-   references in text order, whatever the schedule was. *)
-Theorem C34_refs_in_text_order : forall (ans : provider) models outs,
+   delivers, see C34_tree_refs_increasing), the list is exactly the entries of the
+   provider-resolved references in text order, whatever the schedule was. *)
+Theorem C34_refs_in_text_order : forall (ans : provider) (bi : cref -> bool) models outs,
   Forall (fun rs => StronglySorted N.lt (map cstart rs)) models ->
-  load ans models = Ok outs ->
-  Forall2 (fun rs es => exists xts, map fst xts = rs /\
-                          Forall (fun xt => exists h, ans (fst xt) h = Resolved (snd xt)) xts /\
-                          es = map mk_entry xts) models outs.
+  load ans bi models = Ok outs ->
+  Forall2 (fun rs es => exists xts bs,
+             es = map mk_entry xts /\ Permutation rs (map fst xts ++ bs) /\
+             Forall (fun xt => exists h, ans (fst xt) h = Resolved (snd xt)) xts /\
+             Forall (fun b => bi b = true /\ exists h, ans b h = NotFound) bs /\
+             StronglySorted N.lt (map cstart (map fst xts))) models outs.
 Proof. exact load_listed_in_order. Qed.
 Print Assumptions C34_refs_in_text_order.
 
@@ -74,16 +131,29 @@ Theorem C34_tree_refs_increasing : forall t, wfb t = true -> StronglySorted N.lt
 Proof. exact tree_refs_increasing. Qed.
 Print Assumptions C34_tree_refs_increasing.
 
-(* Whole load of a set of files, any provider: the list of every model is, entry by entry and
-   in document order, the list of that model's reference nodes. *)
-Theorem C34_load_trees : forall (ans : provider) trees outs,
+(* Whole load of a set of files, any provider, no builtins: the list of every model is, entry
+   by entry and in document order, the list of that model's reference nodes. *)
+Theorem C34_load_trees : forall (ans : provider) (bi : cref -> bool) trees outs,
+  (forall x, bi x = false) ->
   Forall (fun t => wfb t = true) trees ->
-  load_trees ans trees = Ok outs ->
+  load_trees ans bi trees = Ok outs ->
   Forall2 (fun t es => exists xts, map fst xts = refs_pre t /\
                          Forall (fun xt => exists h, ans (fst xt) h = Resolved (snd xt)) xts /\
                          es = map mk_entry xts) trees outs.
-Proof. exact load_trees_in_order. Qed.
+Proof. exact load_trees_exactly. Qed.
 Print Assumptions C34_load_trees.
+
+(* With builtins: the entries of the provider-resolved reference nodes, in document order. *)
+Theorem C34_load_trees_builtins : forall (ans : provider) (bi : cref -> bool) trees outs,
+  Forall (fun t => wfb t = true) trees ->
+  load_trees ans bi trees = Ok outs ->
+  Forall2 (fun t es => exists xts bs,
+             es = map mk_entry xts /\ Permutation (refs_pre t) (map fst xts ++ bs) /\
+             Forall (fun xt => exists h, ans (fst xt) h = Resolved (snd xt)) xts /\
+             Forall (fun b => bi b = true /\ exists h, ans b h = NotFound) bs /\
+             StronglySorted N.lt (map cstart (map fst xts))) trees outs.
+Proof. exact load_trees_in_order. Qed.
+Print Assumptions C34_load_trees_builtins.
 
 (* ---- the position map (_pos_rule_dict), for every tree ---- *)
 
@@ -117,6 +187,39 @@ Theorem C34_dict_order : forall t,
 Proof. exact dict_order. Qed.
 Print Assumptions C34_dict_order.
 
+(* ---- on the parse trees of the builder model (Model/Build.v, C01/C06) ----
+   [abs g mm t] is the object/token tree process_node sees in the Peg parse tree t (it follows
+   pnode's choice of children); its object nodes are the common-rule nodes with (tpos, tend). *)
+
+(* "key = span of the object's node in the parse tree": every key of the position map is
+   (tpos, tend) of a common-rule node t' of the parse tree, the value is that node's rule. *)
+Theorem C34_dict_key_is_node_span : forall g mm t nd s e i,
+  In nd (abs g mm t) -> In (s, e, i) (rule_dict nd) ->
+  exists t', In t' (subtrees t) /\ is_common mm t' /\
+             i = tree_nid t' /\ s = N.of_nat (Build.tpos t') /\ e = N.of_nat (Build.tend t').
+Proof. exact dict_key_is_node_span. Qed.
+Print Assumptions C34_dict_key_is_node_span.
+
+(* Every object the builder creates (every VObj inside the value pnode returns, at any depth,
+   for every grammar/metamodel table, input and option setting of Build.v's fragment) carries
+   the span of a common-rule node of the parse tree, and that span is a key of the position map. *)
+Theorem C34_built_objects_are_keys : forall g mm input grp auto use_grp t v top',
+  pnode g mm input grp auto use_grp t None = BOk (v, top') ->
+  forall p e, In (p, e) (vspans v) ->
+  (exists t', In t' (subtrees t) /\ is_common mm t' /\ p = Build.tpos t' /\ e = Build.tend t') /\
+  exists nd i, In nd (abs g mm t) /\ In (N.of_nat p, N.of_nat e, i) (rule_dict nd).
+Proof. exact built_objects_spans_and_keys. Qed.
+Print Assumptions C34_built_objects_are_keys.
+
+Example C34_build_nonvacuous :
+  let g := mkGrammar [] 0 None in
+  let mm := [IRule RCommon [65]%N [mkAttr [98]%N M1 true false [66]%N false]; IAsgn [98]%N OpPlain; IRule RCommon [66]%N []; IOther] in
+  let t := NT 0 [NT 1 [NT 2 [T 3 2 3 false; T 3 7 1 false]]] in
+  pnode g mm [] (fun _ _ => None) false false t None = BOk (VObj [65]%N 2 8 [([98]%N, VObj [66]%N 2 8 [])], None) /\
+  map rule_dict (abs g mm t) = [[(2%N, 8%N, 2)]].
+Proof. vm_compute. split; reflexivity. Qed.
+Print Assumptions C34_build_nonvacuous.
+
 (* non-vacuity for the position map: Wrap(1) = Mid(2) = Core(3) share a span, a second Wrap(4)
    shares only the start with its Mid(5); 6 is the model *)
 Definition demo_tree : node :=
@@ -137,9 +240,26 @@ Definition demo_tbl : list (nat * (nat * option target)) :=
     (1, (1, Some {| tfile := 1; tstart := 3%N; tend := 9%N |}));
     (2, (0, Some {| tfile := 0; tstart := 0%N; tend := 5%N |})) ]%nat.
 Example C34_refs_nonvacuous :
-  match load (table_ans demo_tbl) [demo_refs] with
+  match load (table_ans demo_tbl) (fun _ => false) [demo_refs] with
   | Ok [es] => map e_ref es = [0; 1; 2] /\ map e_end es = [13; 16; 25]%N /\ map e_file es = [0; 1; 0]
   | _ => False
   end.
 Proof. vm_compute. repeat split. Qed.
 Print Assumptions C34_refs_nonvacuous.
+
+(* builtins and repository: reference 1 is not found by the provider (after one postponement) and
+   is a builtin name: it gets no entry; the second model was loaded earlier and keeps its list *)
+Definition demo_tbl2 : list (nat * (nat * option target)) :=
+  [ (0, (1, Some {| tfile := 1; tstart := 0%N; tend := 5%N |}));
+    (1, (1, None));
+    (2, (0, Some {| tfile := 0; tstart := 0%N; tend := 5%N |})) ]%nat.
+Definition demo_old : list entry :=
+  [ {| e_ref := 9; e_name := [99]%N; e_start := 4%N; e_end := 5%N; e_file := 1; e_dstart := 0%N; e_dend := 3%N |} ].
+Example C34_repo_nonvacuous :
+  match load_repo (table_ans demo_tbl2) (fun x => Nat.eqb (cid x) 1) [Fresh demo_refs; Done demo_old] with
+  | Ok [es; old] => map e_ref es = [0; 2] /\ old = demo_old
+  | _ => False
+  end /\
+  load (table_ans demo_tbl2) (fun _ => false) [demo_refs] = UnknownObject.
+Proof. vm_compute. repeat split. Qed.
+Print Assumptions C34_repo_nonvacuous.
